@@ -55,6 +55,10 @@ def scan(roots=("/repo/h3/src", "/repo/h3-datagram/src")):
     """Return dict: qualified name ('error::internal_error::ErrorOrigin') -> list of (variant, value)."""
     table = {}
     for root in roots:
+        prefix = []
+        if isinstance(root, tuple):
+            root, pfx = root
+            prefix = [pfx]
         for dp, _, files in os.walk(root):
             for fn in files:
                 if not fn.endswith(".rs"):
@@ -95,7 +99,7 @@ def scan(roots=("/repo/h3/src", "/repo/h3-datagram/src")):
                             val = int(me.group(1))
                         variants.append((mv.group(1), val))
                         nextval = val + 1
-                    q = "::".join(mod + [name])
+                    q = "::".join(prefix + mod + [name])
                     table[q] = variants
     return table
 
@@ -136,6 +140,27 @@ class EnumTable:
             best = [q for q in cands if h.endswith(q) or q.endswith(h)]
             if len(best) == 1:
                 return self.table[best[0]]
+            # a crate-qualified head ('quinn::ConnectionError', 'h3::quic::..'): candidates from that crate (re-exports of
+            # quinn_proto appear as quinn::)
+            crate = h.split("::")[0]
+            best = [q for q in cands if q.split("::")[0] == crate]
+            if len(best) == 1:
+                return self.table[best[0]]
+            fam = {"quinn": ("quinn", "quinn_proto")}.get(crate, (crate,))
+            best = [q for q in cands if q.split("::")[0] in fam]
+            if len(best) == 1:
+                return self.table[best[0]]
+            if "::" not in h and all(q.split("::")[0] in ("quinn", "quinn_proto") for q in cands):
+                # an unqualified name that only the quinn crates define: the adapter uses quinn's own (not quinn_proto's)
+                best = [q for q in cands if q.split("::")[0] == "quinn"]
+                if len(best) == 1:
+                    return self.table[best[0]]
+            if not best and "::" in h:
+                # heads without a known crate prefix: prefer the crate under analysis (unprefixed entries)
+                pass
+            unpref = [q for q in cands if q.split("::")[0] not in ("quinn", "quinn_proto")]
+            if crate not in ("quinn", "quinn_proto") and len(unpref) == 1:
+                return self.table[unpref[0]]
             # all candidates agree?
             vs = {tuple(self.table[q]) for q in cands}
             if len(vs) == 1:
